@@ -68,7 +68,7 @@ def run(ctx):
     ctx.log("%d workspaces, %d completion positions" % (len(cases), len(flat_cases)))
     ctx.compare("scope(completion)", flat_cases, flat_impl, flat_model, nontrivial=lambda c, a: bool(a))
     ctx.phase("oracle")
-    spec = ctx.run_driver(["scopespec" + dl[5:] for _, _, _, _, _, dl in res])
+    spec = scopelib.run_lines([core.DRIVER_BIN], ["scopespec" + dl[5:] for _, _, _, _, _, dl in res])
     bad_spec, bad_wf = [], []
     for (c, qs, impl, model, hl, dl), sp in zip(res, spec):
         sw = sp.split(" ")
